@@ -81,6 +81,10 @@ func c06(c *Ctx) {
 		c06Hook(c)
 		return
 	}
+	if c.Mode == "netns" {
+		c06Netns(c)
+		return
+	}
 	c06Loopback(c)
 }
 
